@@ -4,6 +4,7 @@ CONSTANTS
  Shapes <- ShOk12
  MaxFaults = 2
  MaxCrashes = 1
+ MaxIdxLoss = 0
  InlineAt = 2
  Interval = 2
  MBs = {80}
